@@ -336,11 +336,13 @@ def fireUpdLoop (cfg : Cfg) (env : Option Nested) (tm : Timing) :
     | (st', .error e) => (st', .error e)
     | (st', .ok ()) => fireUpdLoop cfg env tm us st'
 
-/-- step 8: `update_row_selective` at the positions computed before the BEFORE triggers ran -/
-def applyUpdates : List (Nat × Row × Row) → List Row → Except TErr (List Row)
-  | [], rows => .ok rows
+/-- step 8: `update_row_selective` at the positions computed before the BEFORE triggers ran; a
+position that no longer exists (a trigger body deleted rows) stops the loop with a storage
+error, the rows written so far stay written -/
+def applyUpdates : List (Nat × Row × Row) → List Row → List Row × Option TErr
+  | [], rows => (rows, none)
   | (i, _, n) :: us, rows =>
-    if i < rows.length then applyUpdates us (rows.set i n) else .error .storage
+    if i < rows.length then applyUpdates us (rows.set i n) else (rows, some .storage)
 
 def execUpdate (cfg : Cfg) (env : Option Nested) (top : Bool) (st : St) (sel : Row → Bool)
     (f : Row → Row) : St × Out :=
@@ -354,8 +356,8 @@ def execUpdate (cfg : Cfg) (env : Option Nested) (top : Bool) (st : St) (sel : R
       | (st2, .error e) => (st2, .err e)
       | (st2, .ok ()) =>
         match applyUpdates ups st2.rows with
-        | .error e => (st2, .err e)
-        | .ok rows' =>
+        | (rows', some e) => ({ st2 with rows := rows' }, .err e)
+        | (rows', none) =>
           match fireUpdLoop cfg env .after ups { st2 with rows := rows' } with
           | (st3, .error e) => (st3, .err e)
           | (st3, .ok ()) =>
@@ -378,15 +380,18 @@ def removeIdx (idx : List Nat) : List Row → Nat → List Row
   | [], _ => []
   | r :: rs, i => if idx.contains i then removeIdx idx rs (i + 1) else r :: removeIdx idx rs (i + 1)
 
+/-- no WHERE clause selects every row -/
+def selPred (sel : Option (Row → Bool)) : Row → Bool :=
+  match sel with
+  | some p => p
+  | none => fun _ => true
+
 def execDelete (cfg : Cfg) (env : Option Nested) (top : Bool) (st : St)
     (sel : Option (Row → Bool)) : St × Out :=
   if sel.isNone && !hasTriggers cfg .delete then
     ({ st with rows := [] }, .ok st.rows.length)      -- truncate fast path: nothing fires
   else
-    let p : Row → Bool := match sel with
-      | some p => p
-      | none => fun _ => true
-    let dels := selectIdx p st.rows 0                 -- collected before any trigger runs
+    let dels := selectIdx (selPred sel) st.rows 0                 -- collected before any trigger runs
     match fireStmtIfTop cfg env top .before .delete st with
     | (st1, .error e) => (st1, .err e)
     | (st1, .ok ()) =>
